@@ -1,7 +1,7 @@
 (* C11 -- concurrent senders never corrupt the wire.  Statements only. *)
 From Coq Require Import List.
 From Model Require Import Conc.
-From Proofs Require Import ConcFacts.
+From Proofs Require Import ConcFacts ConcOrder ConcDeflate.
 Import ListNotations.
 
 (* for every set of programs (any number of threads, any calls, compressed or not) and every schedule, the bytes on
@@ -18,6 +18,35 @@ Print Assumptions C11_whole_frames.
 Theorem C11_invariant : forall sched st, sys_inv st -> sys_inv (exec st sched).
 Proof. exact exec_inv. Qed.
 Print Assumptions C11_invariant.
+
+(* each thread's frames reach the wire in the order of the calls it made: the completed frames of thread t, oldest first,
+   are a subsequence of the messages of its program, in program order (so none is duplicated or overtaken by a later one
+   of the same thread) -- for every set of programs and every schedule *)
+Theorem C11_thread_order : forall progs sched t calls,
+  nth_error progs t = Some calls ->
+  subseq (rev (wire_of t (fst (exec (init_shared, map mk_thread progs) sched)))) (map msg_of calls).
+Proof. exact thread_order. Qed.
+Print Assumptions C11_thread_order.
+
+(* ... and contains every message whose send returned normally: nothing that was accepted is lost *)
+Theorem C11_sent_is_on_wire : forall progs sched t th c,
+  nth_error (snd (exec (init_shared, map mk_thread progs) sched)) t = Some th ->
+  In (c, None) (th_results th) -> is_send c = true ->
+  In (msg_of c) (wire_of t (fst (exec (init_shared, map mk_thread progs) sched))).
+Proof. exact sent_is_on_wire. Qed.
+Print Assumptions C11_sent_is_on_wire.
+
+(* compression with context takeover: the compressed frames on the wire are, in wire order, exactly the first messages
+   that went through the shared deflate context, in that order (lists are most recent first, so "first" is the tail);
+   the context may be ahead of the wire only by the one message in flight under Deflate.lock or, once no frame can be
+   written any more (socket gone, closing or closed), by sends that were refused.  So the peer, inflating frames in
+   wire order, always feeds its inflater the stream the deflater produced. *)
+Theorem C11_deflate_order : forall progs sched,
+  let s := fst (exec (init_shared, map mk_thread progs) sched) in
+  (exists pre, s_zorder s = pre ++ zwire s) /\
+  (s_zlock s = None -> exists pre, s_zorder s = pre ++ zwire s /\ (pre <> [] -> dead s = true)).
+Proof. exact deflate_order. Qed.
+Print Assumptions C11_deflate_order.
 
 Example C11_nonvacuous :
   let st := exec (init_shared, map mk_thread [[KSend true true 1]; [KSend true true 2]])
